@@ -28,22 +28,25 @@ pub struct Cfg {
     /// 0 none (shortcut constructor), 1 none (builder), 2 accepts everything, 3 accepts class 1 only
     pred: u8,
     backup_ok: bool,
+    /// builder order: handle() before the strategy method (only meaningful with a predicate)
+    pred_first: bool,
     /// per request: inner outcome 0 ok / 1 err class 1 / 2 err class 2, latency us, payload
     reqs: Vec<(u8, u64, u64)>,
 }
 
-pub const GRID: usize = 6 * 4 * 2;
+pub const GRID: usize = 6 * 4 * 2 * 2;
 
 pub fn cfg_for(index: usize, rng: &mut Prng) -> Cfg {
     let strat = STRATS[index % 6];
     let pred = ((index / 6) % 4) as u8;
     let backup_ok = (index / 24) % 2 == 0;
+    let pred_first = (index / 48) % 2 == 1;
     // every inner outcome appears in every configuration, plus random extras
     let mut reqs = vec![(0u8, 0u64, rng.next()), (1, 0, rng.next()), (2, 0, rng.next())];
     for _ in 0..rng.range(0, 4) {
         reqs.push((rng.below(3) as u8, *rng.pick(&[0u64, 1000, 5000]), rng.next()));
     }
-    Cfg { strat, pred, backup_ok, reqs }
+    Cfg { strat, pred, backup_ok, pred_first, reqs }
 }
 
 fn map_err(e: &FallbackError<PErr>) -> Outcome {
@@ -67,7 +70,7 @@ pub fn run(cfg: &Cfg, seed: u64) -> Arc<World> {
             let shortcut = cfg.pred == 0;
             match cfg.strat {
                 Strat::Value => {
-                    if shortcut { FallbackLayer::value(VALUE) } else { with_pred(FallbackLayer::builder().value(VALUE), cfg.pred).build() }
+                    if shortcut { FallbackLayer::value(VALUE) } else { ordered(cfg.pred, cfg.pred_first, |b| b.value(VALUE)).build() }
                 }
                 Strat::ValueFn => {
                     let n = note.clone();
@@ -75,7 +78,7 @@ pub fn run(cfg: &Cfg, seed: u64) -> Arc<World> {
                         n("strategy:value_fn", 0, 0);
                         Resp { serial: 900_002, req_id: 0, payload: 43, src: 11 }
                     };
-                    if shortcut { FallbackLayer::value_fn(f) } else { with_pred(FallbackLayer::builder().value_fn(f), cfg.pred).build() }
+                    if shortcut { FallbackLayer::value_fn(f) } else { ordered(cfg.pred, cfg.pred_first, |b| b.value_fn(f)).build() }
                 }
                 Strat::FromError => {
                     let n = note.clone();
@@ -83,7 +86,7 @@ pub fn run(cfg: &Cfg, seed: u64) -> Arc<World> {
                         n("strategy:from_error", e.req_id, e.serial);
                         Resp { serial: e.serial, req_id: e.req_id, payload: e.class as u64 * 1000, src: 12 }
                     };
-                    if shortcut { FallbackLayer::from_error(f) } else { with_pred(FallbackLayer::builder().from_error(f), cfg.pred).build() }
+                    if shortcut { FallbackLayer::from_error(f) } else { ordered(cfg.pred, cfg.pred_first, |b| b.from_error(f)).build() }
                 }
                 Strat::FromRequestError => {
                     let n = note.clone();
@@ -91,7 +94,7 @@ pub fn run(cfg: &Cfg, seed: u64) -> Arc<World> {
                         n("strategy:from_request_error", r.id, e.serial);
                         Resp { serial: e.serial, req_id: r.id, payload: r.payload ^ e.class as u64, src: 13 }
                     };
-                    if shortcut { FallbackLayer::from_request_error(f) } else { with_pred(FallbackLayer::builder().from_request_error(f), cfg.pred).build() }
+                    if shortcut { FallbackLayer::from_request_error(f) } else { ordered(cfg.pred, cfg.pred_first, |b| b.from_request_error(f)).build() }
                 }
                 Strat::Service => {
                     let n = note.clone();
@@ -106,7 +109,7 @@ pub fn run(cfg: &Cfg, seed: u64) -> Arc<World> {
                             }
                         }
                     };
-                    if shortcut { FallbackLayer::service(f) } else { with_pred(FallbackLayer::builder().service(f), cfg.pred).build() }
+                    if shortcut { FallbackLayer::service(f) } else { ordered(cfg.pred, cfg.pred_first, |b| b.service(f)).build() }
                 }
                 Strat::Exception => {
                     let n = note.clone();
@@ -114,7 +117,7 @@ pub fn run(cfg: &Cfg, seed: u64) -> Arc<World> {
                         n("strategy:exception", e.req_id, e.serial);
                         PErr { serial: e.serial, req_id: e.req_id, class: e.class + 100 }
                     };
-                    if shortcut { FallbackLayer::exception(f) } else { with_pred(FallbackLayer::builder().exception(f), cfg.pred).build() }
+                    if shortcut { FallbackLayer::exception(f) } else { ordered(cfg.pred, cfg.pred_first, |b| b.exception(f)).build() }
                 }
             }
         };
@@ -128,6 +131,17 @@ pub fn run(cfg: &Cfg, seed: u64) -> Arc<World> {
         sim.horizon = 10_000_000;
     });
     w
+}
+
+type B = tower_resilience_fallback::FallbackConfigBuilder<Req, Resp, PErr>;
+
+/// builder with the predicate applied before (`first`) or after the strategy method `f`
+fn ordered(pred: u8, first: bool, f: impl FnOnce(B) -> B) -> B {
+    if first {
+        f(with_pred(FallbackLayer::builder(), pred))
+    } else {
+        with_pred(f(FallbackLayer::builder()), pred)
+    }
 }
 
 fn with_pred(b: tower_resilience_fallback::FallbackConfigBuilder<Req, Resp, PErr>, pred: u8) -> tower_resilience_fallback::FallbackConfigBuilder<Req, Resp, PErr> {
@@ -251,7 +265,7 @@ pub fn judge(cfg: &Cfg, log: &[Rec]) -> Report {
         rep.violate(format!("C17:{name}:strategy-invocations"), format!("value function ran {anon_strat_calls} times, expected {expected_valuefn}"));
     }
     rep.count("requests", cfg.reqs.len() as u64);
-    rep.bucket(format!("{:?} pred={} backup_ok={}", cfg.strat, cfg.pred, cfg.backup_ok));
+    rep.bucket(format!("{:?} pred={} backup_ok={} pred_first={}", cfg.strat, cfg.pred, cfg.backup_ok, cfg.pred_first));
     rep.nontrivial = invoked;
     rep
 }
